@@ -142,6 +142,33 @@ theorem default_only_if_unset_or_null (q : ScopeQuirks) (h : Heap) (s : Nat) (x 
   · simp [setVariable, hl]
   · simp [setVariable, hl, hw]
 
+/-- the `!default` test is "undefined or **exactly** `null`" -/
+theorem default_test_is_exactly_null (w : V) : w.isNull = true ↔ w = V.null := by
+  constructor
+  · intro h
+    cases w with
+    | atom a => cases a <;> simp_all [V.isNull, V.null]
+    | list xs c => simp [V.isNull] at h
+    | map kv => simp [V.isNull] at h
+    | arglist p n => simp [V.isNull] at h
+    | blist xs c => simp [V.isNull] at h
+  · rintro rfl; rfl
+
+/-- values that are blank or falsy but defined — `()`, `null null`, `(null,)`, the empty
+unquoted string, `""`, `[]`, `0`, `false` — are kept by `!default` (any flags, any scope);
+`css::Value::is_null()` is true for the first four, which is why the guard in
+`Scope::set_variable` must not be written with it -/
+def blankValues : List V :=
+  [.list [] true, .list [.null, .null] false, .list [.null] true, .atom (.str []), .atom (.qstr []),
+   .blist [] true, .num 0, .atom (.bool false)]
+
+theorem default_keeps_blank_values (q : ScopeQuirks) (h : Heap) (s : Nat) (x : Name) (v w : V) (glob : Bool)
+    (hw : w ∈ blankValues) (hl : lookup h s x = some w) :
+    setVariable q h s x v true glob = h := by
+  apply default_keeps_defined q h s x v w glob hl
+  simp only [blankValues, List.mem_cons, List.not_mem_nil, or_false] at hw
+  rcases hw with rfl | rfl | rfl | rfl | rfl | rfl | rfl | rfl <;> rfl
+
 example : lookup Heap.init 0 ['a'] = none := by decide
 example : ∃ w, lookup (insertAt Heap.init 0 ['a'] V.null) 0 ['a'] = some w ∧ w.isNull = true :=
   ⟨V.null, by decide, rfl⟩
